@@ -22,6 +22,14 @@ def sameKind (lookup : Val) (keys : List Val) : Bool :=
 def specBinExact (lookup : Val) (keys : List Val) : Option Nat :=
   (keys.findIdx? (fun k => bsEqB k lookup)).map (· + 1)
 
+/-- 1-based position of the last key that is not greater than the lookup value ("exact match or next smaller") -/
+def specBinNextSmaller (lookup : Val) (keys : List Val) : Option Nat :=
+  (keys.reverse.findIdx? (fun k => bsLt lookup k == some false)).map (fun i => keys.length - i)
+
+/-- 1-based position of the first key that is not smaller than the lookup value ("exact match or next larger") -/
+def specBinNextLarger (lookup : Val) (keys : List Val) : Option Nat :=
+  (keys.findIdx? (fun k => bsLt k lookup == some false)).map (· + 1)
+
 /-- every key is a non-blank value of the lookup value's kind -/
 def allEligible (lookup : Val) (keys : List Val) : Bool :=
   match lkind lookup with
